@@ -9,6 +9,7 @@ import itertools
 import math
 
 import numpy as np
+from scipy.special import logsumexp
 
 from vlib import gen, refmodel
 
@@ -133,7 +134,8 @@ def case_task(task):
             try:
                 iv = refmodel.IntervalMarginal((D, G))
                 _lo, _hi, rlo, rhi = iv.run(f, values)
-                if rlo is not None and float(np.max(rhi - rlo)) > 1e-10:
+                if rlo is not None and max(float(np.max(rhi[:, -1] - rlo[:, -1])),
+                                           float(np.max(logsumexp(rhi, axis=1) - logsumexp(rlo, axis=1)))) > 1e-10:
                     part.count("skipped_outside_underflow_window")
                     continue
                 _R, root = refmodel.exact_node_vectors(f, values, (D, G))
@@ -189,7 +191,7 @@ def run(ctx):
                 "siblings, incremental with dict hops, relabelled, from_dict, prune-regraft detour, data-point detour); "
                 "random trees to 12 points, D<=3; distinct = (canonical tree, alpha, outlier prior)")
     ctx.assumptions = ["root-count penalty normaliser -(R-1)log1000 - log((1-1000^-R)/(1-1/1000)) frozen from the pinned code",
-                       "cases whose exact marginal is not inside the C02 underflow window (band > 1e-10) are skipped",
+                       "cases whose data term (last grid entry / row log-sum of the root vector) is not inside the C02 underflow window (band > 1e-10) are skipped",
                        "outlier prior terms apply to a point only when its outlier probability is non-zero"]
     rng = np.random.default_rng([ctx.seed, 303])
     cases = []
@@ -212,7 +214,7 @@ def run(ctx):
         f = gen.random_forest(rng, n, max_children=6, p_outlier=0.2 if op > 0 else 0.0,
                               shape=[None, "star", "bushy", "chain"][i % 4], n_tops=[None, 1, 4][i % 3])
         cases.append({"id": cid, "n": n, "D": 1 + i % 3, "G": [5, 11, 21][i % 3], "outlier_prior": op,
-                      "kind": ["moderate", "smooth", "twins", "flat"][i % 4], "alphas": [alphas[i % 5], alphas[(i + 2) % 5]],
+                      "kind": ["moderate", "smooth", "twins", "flat", "scales"][i % 5], "alphas": [alphas[i % 5], alphas[(i + 2) % 5]],
                       "forests": [f.describe()], "cluster_sizes": bool(i % 4 == 0)})
         cid += 1
     tasks = [{"seed": ctx.seed, "cases": cases[i::32]} for i in range(32)]
